@@ -145,8 +145,13 @@ CLAIMS = {
         "`runTeardown` and the exit step. Cancellation of the block is the model's `effStack`: the teardown runs in a cancelled "
         "scope, so an asynchronous callback is invoked and its awaitable cancelled at its first checkpoint (C01_cancel_only, "
         "_shape, _all_invoked, _lifo, _collected: every registered callback is still invoked once, in LIFO order, and each "
-        "cancellation is collected like any other exception). " + KERNEL_NOTE,
-        "Partial: cancellation arriving in the middle of a teardown that began for another reason, shielded callbacks, and "
+        "cancellation is collected like any other exception). Cancellation that arrives while the teardown is already running "
+        "(block left normally or by an exception, scope cancelled during the directly registered asynchronous callback k) is "
+        "`midStack`/`exitMid` (C01_midcancel_shape, _absent, _of_cancelled, _absent_exit, _all_invoked, _lifo, _before, "
+        "_collected, _outcome_group, _surfaces, _closed_afterwards: what ran before ran as registered, k ends cancelled, "
+        "everything after it runs in the cancelled scope, nothing is lost, the cancellation surfaces in the group). " + KERNEL_NOTE,
+        "Partial: a cancellation arriving during a callback that was itself registered during the teardown, or during a "
+        "synchronous callback (no checkpoint: what the caller sees then depends on the back-end), shielded callbacks, and "
         "callbacks that work before their first checkpoint are not in the model: not generated, not claimed. When every "
         "exception reaching the caller is a cancellation, their number and nesting are the back-end's (compared as one "
         "token). The Python class of the exception group and sys.exc_info() inside __aexit__ are implementation-side.",
